@@ -199,6 +199,12 @@ func genRT(tier string) []proto.RTItem {
 			items = append(items, proto.RTItem{Scn: r, Class: fmt.Sprintf("one-request/%s-%s/ipid-base-%d", pr.p, pr.m, b.ipid)})
 		}
 	}
+	// a SACK request whose own SYN-ACK is slow: the SYN-ACKs answering its end-to-end SYN probes are captured first
+	for _, m := range []string{"sack", "prefer_sack"} {
+		r := proto.RTScn{Hostname: "198.18.0.9", Protocol: "tcp", Method: m, MinTTL: 1, MaxTTL: 5, DelayMs: 10, TimeoutMs: 300, Queries: 1, E2e: 2, Dest: 3, IPIDBase: 3000, EchoBase: 300,
+			UseListenerPort: true, Capability: "slow-synack"}
+		items = append(items, proto.RTItem{Scn: r, Class: fmt.Sprintf("one-request/tcp-%s/slow-synack-behind-the-probes-synacks", m)})
+	}
 	return items
 }
 
